@@ -200,8 +200,14 @@ def register(R):
                                                       and index_of(evs, ne[0]) < index_of(evs, nd[0]))),
         }
 
+    def sub_exit_checks(c):
+        gets = [e for e in c.trace if e.kind == 'ext' and e.name == 'mpqueue.get']
+        from pyvc.values import to_z3_bool
+        return {'returns_only_on_the_shutdown_signal': (z3.And(B(len(gets) == 1), to_z3_bool(c.engine.value_eq(gets[-1].result, 'SHUTDOWN', c.new.st)))
+                                                        if gets else B(False))}
+
     R.contract(f'{SUB}._do_run', props=['C19'], params={},
-               checks=lambda c: {'returns_only_on_the_shutdown_signal': B(True)}, raises={},
+               checks=sub_exit_checks, raises={},
                loops={0: LoopSpec(invariant=lambda l: {}, iteration_checks=sub_run_iteration)})
     R.contract(f'{PP}:GetObjectSubmitter._submit_get_object_jobs#') if False else None
 
